@@ -70,7 +70,10 @@ func flowC04(c *Ctx) {
 		ref, okRef := oneSite(c, r2, key+"/call:MHDR.MarshalBinary", fn, "(lorawan.MHDR).MarshalBinary")
 		if okRef {
 			refPC := projectPlumbing(e.PathCond(ref.Instr.Block(), nil), map[string]bool{O.Atom: true})
-			for _, x := range []struct{ callee, what string; arg *flow.Term }{
+			for _, x := range []struct {
+				callee, what string
+				arg          *flow.Term
+			}{
 				{"(lorawan.EUI64).MarshalBinary", "JoinEUI", flow.Param(2)},
 				{"(lorawan.DevNonce).MarshalBinary", "DevNonce", flow.Param(3)},
 			} {
@@ -115,7 +118,10 @@ func flowC04(c *Ctx) {
 		}
 	}
 
-	for _, x := range []struct{ name, want, other string; srcOf func() []*flow.Term }{
+	for _, x := range []struct {
+		name, want, other string
+		srcOf             func() []*flow.Term
+	}{
 		{"PHYPayload.EncryptJoinAcceptPayload", "invoke crypto/cipher.Block.Decrypt", "invoke crypto/cipher.Block.Encrypt", func() []*flow.Term {
 			pl := flow.Extract(flow.Call("invoke lorawan.Payload.MarshalBinary", flow.Param(0, "MACPayload")), 0)
 			return []*flow.Term{flow.Call("append", pl, flow.SliceOf(flow.Param(0, "MIC"), flow.ConstInt(0), flow.ConstInt(4))), flow.Call("append", pl, flow.SliceOf(flow.Param(0, "MIC"), nil, nil))}
@@ -201,6 +207,7 @@ func blockSite(c *Ctx, rule string, fn *ssa.Function, ci ssa.CallInstruction, sr
 	}
 	var bases [2]*flow.Term
 	var lows [2]*flow.Term
+	byteStep := false // the loop variable is the byte offset itself (o += 16)
 	for k, a := range args {
 		sl, ok := a.(*ssa.Slice)
 		if !ok || sl.Low == nil || sl.High == nil {
@@ -223,6 +230,9 @@ func blockSite(c *Ctx, rule string, fn *ssa.Function, ci ssa.CallInstruction, sr
 			}
 		} else {
 			stride = 1
+		}
+		if stride == 1 {
+			byteStep = true
 		}
 		init, step, isLoop := flow.LoopVar(lv)
 		if !isLoop {
@@ -247,7 +257,10 @@ func blockSite(c *Ctx, rule string, fn *ssa.Function, ci ssa.CallInstruction, sr
 		_ = a
 		if t != nil && t.Op == "bin" && t.Val == "<" && len(t.Args) == 2 && t.Args[0].Op == "loop" {
 			for _, b := range []*flow.Term{bases[0], bases[1]} {
-				if t.Args[1].Equal(flow.Bin("/", flow.Call("len", b), flow.ConstInt(16))) {
+				if !byteStep && t.Args[1].Equal(flow.Bin("/", flow.Call("len", b), flow.ConstInt(16))) {
+					bound = true
+				}
+				if byteStep && t.Args[1].Equal(flow.Call("len", b)) {
 					bound = true
 				}
 			}
@@ -554,7 +567,9 @@ func lengthGuardFallback(c *Ctx, rule string, fn *ssa.Function, N int64) {
 		switch {
 		case implied:
 			c.Run.Unknown(rule, rk, ipos(c, r), "recognised decode step (hex.DecodeString) with exact-length test", "an exact-length test exists but the decode step has an unsupported shape")
-		case relational || len(flow.Calls(fn, func(s string) bool { return strings.HasPrefix(s, "lorawan.") || strings.HasPrefix(s, "(lorawan.") || strings.HasPrefix(s, "(*lorawan.") })) == 0:
+		case relational || len(flow.Calls(fn, func(s string) bool {
+			return strings.HasPrefix(s, "lorawan.") || strings.HasPrefix(s, "(lorawan.") || strings.HasPrefix(s, "(*lorawan.")
+		})) == 0:
 			c.Run.Bad(rule, rk, ipos(c, r), fmt.Sprintf("success implies decoded length == %d (wrong-length input is rejected)", N), describeLengthGuard(pc, N))
 		default:
 			c.Run.Unknown(rule, rk, ipos(c, r), fmt.Sprintf("success implies decoded length == %d", N), short(pc.Pretty()))
